@@ -13,6 +13,7 @@ import hashlib
 import io
 import os
 import pickle
+import re
 import shutil
 import sys
 import tempfile
@@ -50,7 +51,61 @@ HOSTILE: List[Tuple[str, str]] = [
     ("nested", "....//x"),  # becomes ../x if '../' is deleted once
 ]
 TRAVERSAL = ["up1", "up2", "abs", "suffix"]
-HOSTILE_D = dict(HOSTILE)
+
+# ---- compatibility characters: every code point whose NFC/NFD/NFKC/NFKD/casefold/lower/upper form contains '/', '\\',
+# '.' or NUL (enumerated with unicodedata over all planes; 38 with Unicode 15), placed in dot-dot and absolute arrangements
+ROOT_FW_TOKEN = "@ROOTFW@"  # the harness root with every '/' written as FULLWIDTH SOLIDUS
+
+
+def _compat_chars():
+    import unicodedata as U
+
+    forms = [lambda c: U.normalize("NFC", c), lambda c: U.normalize("NFD", c), lambda c: U.normalize("NFKC", c), lambda c: U.normalize("NFKD", c),
+             str.casefold, str.lower, str.upper]
+    out = []
+    for cp in range(0x80, 0x110000):
+        if 0xD800 <= cp <= 0xDFFF:
+            continue
+        c = chr(cp)
+        ms = {f(c) for f in forms} - {c}
+        if any(x in m for m in ms for x in "/\\.\0"):
+            out.append((cp, sorted(ms)))
+    return out
+
+
+COMPAT = _compat_chars()
+
+
+def _unicode_hostile():
+    out = []
+    slashes = [chr(cp) for cp, ms in COMPAT if "/" in ms]
+    two_dots = []
+    for cp, ms in COMPAT:
+        c = chr(cp)
+        if "." in ms:
+            two_dots.append(c + c)
+        if ".." in ms:
+            two_dots.append(c)
+    for cp, ms in COMPAT:
+        c = chr(cp)
+        out.append(("u%04X-mid" % cp, ".." + c + "x"))  # ../x if c turns into a separator
+        for S in slashes:
+            out.append(("u%04X-pair-%04X" % (cp, ord(S)), c + c + S + "x"))  # ../x if c turns into '.'
+    for S in slashes:
+        for i, dd in enumerate(two_dots):
+            out.append(("u-dd%d-%04X" % (i, ord(S)), dd + S + dd + S + "x"))  # ../../x
+        out.append(("u-asciidots2-%04X" % ord(S), ".." + S + ".." + S + "x"))
+        out.append(("u-abs-%04X" % ord(S), ROOT_FW_TOKEN.replace("FW", "FW%04X" % ord(S)) + S + "abs" + S + "x"))
+    seen, res = set(), []
+    for k, v in out:
+        if v not in seen:
+            seen.add(v)
+            res.append((k, v))
+    return res
+
+
+UNICODE_HOSTILE = _unicode_hostile()
+HOSTILE_D = dict(HOSTILE + UNICODE_HOSTILE)
 
 SLOTS = [
     "simple-encoding",  # /Encoding /h of a Type1 font
@@ -70,7 +125,7 @@ IMAGE_SLOTS = ("image-name", "image-in-form", "form-name")
 OTYPES = ["text", "xml", "html"]
 
 BOUNDS = {
-    "quick": "11 slots x 19 hostile strings (image slots x 7 export kinds) x output type text; + xml/html for image-name; + inline image and benign baselines; + 17 late-sentinel cases (files appearing after the ImageWriter exists); + 6 CMap slots x 5 names with CMAP_PATH unset and decoys in the working directory; + CMAP_PATH in {'', '.', relative dir} x 5 slots x 6 names; + 10 symlink-inside-resource-dir cases; + 6 output-dir spellings (through a symlink + '..', relative, './', trailing slash) x 2 names x 2 kinds x existing/fresh",
+    "quick": "11 slots x 19 hostile strings (image slots x 7 export kinds) x output type text; + xml/html for image-name; + inline image and benign baselines; + 17 late-sentinel cases (files appearing after the ImageWriter exists); + 6 CMap slots x 5 names with CMAP_PATH unset and decoys in the working directory; + CMAP_PATH in {'', '.', relative dir} x 5 slots x 6 names; + 10 symlink-inside-resource-dir cases; + %d names built from the %d code points whose normal/case forms contain path syntax x 4 slots; + 6 output-dir spellings (through a symlink + '..', relative, './', trailing slash) x 2 names x 2 kinds x existing/fresh" % (len(UNICODE_HOSTILE), len(COMPAT)),
     "thorough": "quick + all output types for every image case + all unordered slot pairs x 4x4 traversal strings",
 }
 
@@ -93,6 +148,7 @@ META = {
         "Pillow is not installed: export paths that need it create their file and then raise ImportError; only file effects are judged, exceptions are recorded as outcome",
         "symbolic links inside $CMAP_PATH that point out of it count as leaving the resource directory (the realpath containment of the implementation rejects them); none are planted inside the repository's own cmap directory",
         "the chosen output directory is os.path.realpath(output_dir) evaluated in the caller's working directory before anything is created",
+        "Unicode names: the code points whose NFC/NFD/NFKC/NFKD/casefold/lower/upper form contains '/', '\\', '.' or NUL (enumerated at import with the interpreter's unicodedata) in '..c x', 'cc/ x', '../../x' and absolute arrangements; decoys and sentinels are planted for the normalised spellings too; other confusables (e.g. U+2215 DIVISION SLASH, which no normal form maps to '/') are not generated",
         "late-sentinel cases assemble the extract_text_to_fp pipeline from the public classes (ImageWriter, converter, PDFPageInterpreter) to drop files between writer construction and export",
         "with CMAP_PATH unset, reads under the documented default /usr/share/pdfminer would be allowed (the directory does not exist here)",
         "inline image names are interpreter-generated (id()), not document-controlled; one inline case per export kind checks they stay inside the output dir",
@@ -143,7 +199,7 @@ def _install() -> None:
 
 # ------------------------------------------------------------------ documents
 def _nm(s: str) -> Name:
-    return Name(s.encode("latin-1"))
+    return Name(s.encode("utf-8"))
 
 
 def _image_stream(kind: str) -> Stream:
@@ -176,7 +232,7 @@ EXT = {"bmp1": ".bmp", "bmp8rgb": ".bmp", "bmp8gray": ".bmp", "jpg": ".jpg", "ra
 
 
 def _tounicode(usecmap: Optional[str]) -> bytes:
-    u = (ser_name(usecmap.encode("latin-1")) + b" usecmap\n") if usecmap is not None else b""
+    u = (ser_name(usecmap.encode("utf-8")) + b" usecmap\n") if usecmap is not None else b""
     return (b"/CIDInit /ProcSet findresource begin\n12 dict begin\nbegincmap\n" + u +
             b"/CMapName /Adobe-Identity-UCS def\n/CMapType 2 def\n1 begincodespacerange\n<00> <FF>\nendcodespacerange\n"
             b"1 beginbfchar\n<41> <0041>\nendbfchar\nendcmap\nCMapName currentdict /CMap defineresource pop\nend\nend\n")
@@ -210,7 +266,7 @@ def build_pdf(slots: List[Tuple[str, str]], kind: str, inline: bool = False) -> 
         elif slot == "type0-encoding":
             use_font({"Type": N("Font"), "Subtype": N("Type0"), "BaseFont": N("HostileCID"), "Encoding": _nm(h), "DescendantFonts": [d.add(_cidfont())]})
         elif slot == "cmap-stream-name":
-            body = (b"/CIDInit /ProcSet findresource begin\n12 dict begin\nbegincmap\n" + ser_name(h.encode("latin-1")) + b" usecmap\n"
+            body = (b"/CIDInit /ProcSet findresource begin\n12 dict begin\nbegincmap\n" + ser_name(h.encode("utf-8")) + b" usecmap\n"
                     b"1 begincodespacerange\n<0000> <FFFF>\nendcodespacerange\n1 begincidrange\n<0000> <FFFF> 0\nendcidrange\nendcmap\nend\nend\n")
             enc = d.add(Stream({"Type": N("CMap"), "CMapName": _nm(h), "CIDSystemInfo": {"Registry": b"Adobe", "Ordering": b"Identity", "Supplement": 0}}, body))
             use_font({"Type": N("Font"), "Subtype": N("Type0"), "BaseFont": N("HostileCID"), "Encoding": enc, "DescendantFonts": [d.add(_cidfont())]})
@@ -223,24 +279,24 @@ def build_pdf(slots: List[Tuple[str, str]], kind: str, inline: bool = False) -> 
             use_font({"Type": N("Font"), "Subtype": N("Type1"), "BaseFont": N("Helvetica"), "ToUnicode": tu}, b"(A)")
         elif slot == "registry":
             use_font({"Type": N("Font"), "Subtype": N("Type0"), "BaseFont": N("HostileCID"), "Encoding": N("Identity-H"),
-                      "DescendantFonts": [d.add(_cidfont(reg=h.encode("latin-1"), ordering=b"Japan1"))]})
+                      "DescendantFonts": [d.add(_cidfont(reg=h.encode("latin-1", "replace"), ordering=b"Japan1"))]})
         elif slot == "ordering":
             use_font({"Type": N("Font"), "Subtype": N("Type0"), "BaseFont": N("HostileCID"), "Encoding": N("Identity-H"),
-                      "DescendantFonts": [d.add(_cidfont(reg=b"Adobe", ordering=h.encode("latin-1")))]})
+                      "DescendantFonts": [d.add(_cidfont(reg=b"Adobe", ordering=h.encode("latin-1", "replace")))]})
         elif slot == "basefont":
             use_font({"Type": N("Font"), "Subtype": N("Type1"), "BaseFont": _nm(h), "FirstChar": 65, "LastChar": 65, "Widths": [600],
                       "FontDescriptor": {"Type": N("FontDescriptor"), "FontName": _nm(h), "Flags": 32, "FontBBox": [0, -200, 1000, 800],
                                          "Ascent": 800, "Descent": -200, "ItalicAngle": 0, "CapHeight": 700, "StemV": 80}}, b"(A)")
         elif slot == "image-name":
             xobj[h] = d.add(_image_stream(kind))
-            ops.append(b"q 10 0 0 10 100 100 cm " + ser_name(h.encode("latin-1")) + b" Do Q")
+            ops.append(b"q 10 0 0 10 100 100 cm " + ser_name(h.encode("utf-8")) + b" Do Q")
         elif slot in ("form-name", "image-in-form"):
             fname, iname = (h, "Im0") if slot == "form-name" else ("F0", h)
             im = d.add(_image_stream(kind))
             form = d.add(Stream({"Type": N("XObject"), "Subtype": N("Form"), "BBox": [0, 0, 100, 100], "Resources": {"XObject": {iname: im}}},
-                                b"q 10 0 0 10 0 0 cm " + ser_name(iname.encode("latin-1")) + b" Do Q"))
+                                b"q 10 0 0 10 0 0 cm " + ser_name(iname.encode("utf-8")) + b" Do Q"))
             xobj[fname] = form
-            ops.append(b"q " + ser_name(fname.encode("latin-1")) + b" Do Q")
+            ops.append(b"q " + ser_name(fname.encode("utf-8")) + b" Do Q")
         elif slot == "legit-cmap":
             use_font({"Type": N("Font"), "Subtype": N("Type0"), "BaseFont": N("Ryumin-Light"), "Encoding": _nm(h),
                       "DescendantFonts": [d.add(_cidfont(reg=b"Adobe", ordering=b"Japan1", base="Ryumin-Light"))]}, b"<8140>")
@@ -268,10 +324,7 @@ def build_pdf(slots: List[Tuple[str, str]], kind: str, inline: bool = False) -> 
     return d.write(cat)
 
 
-# the pdfgen dict serialiser encodes str keys as UTF-8; hostile keys are latin-1 strings with code points < 256,
-# all of them ASCII here except none -- assert to keep that true
-for _k, _v in HOSTILE:
-    assert all(ord(c) < 128 for c in _v), _k
+# the pdfgen dict serialiser and the name helpers above encode str as UTF-8, which is how pdfminer decodes names
 
 
 # ------------------------------------------------------------------ the tree
@@ -316,7 +369,7 @@ class Tree:
     def plant_cmap_decoys(self, names: List[str], bases: Optional[Tuple[str, ...]] = None) -> int:
         """For every file name the implementation may join to a resource directory, plant a decoy where it lands."""
         n = 0
-        for nm in names:
+        for nm in [v for nm0 in names for v in _variants(nm0)]:
             nm = nm.replace("\0", "")
             for base in (bases or (self.cmap, self.lib)):
                 for fname, payload in ((nm + ".pickle.gz", DECOY_CMAP), ("to-unicode-" + nm + ".pickle.gz", DECOY_UMAP)):
@@ -339,7 +392,7 @@ class Tree:
         import re
 
         spellings = []
-        for nm in names:
+        for nm in [v for nm0 in names for v in _variants(nm0)]:
             # the name as written and the spellings a sanitiser could plausibly map it to, so that the
             # collision branch of the unique-name search is taken whatever the sanitiser does
             for v in (nm, re.sub(r"[/\\\0]", "_", nm), os.path.basename(nm.replace("\0", "")), nm.replace("/", "").replace("\0", "")):
@@ -357,7 +410,7 @@ class Tree:
                         os.makedirs(os.path.dirname(tgt), exist_ok=True)
                         if not os.path.exists(tgt):
                             with open(tgt, "wb") as f:
-                                f.write(b"sentinel:" + fn.encode("latin-1", "replace"))
+                                f.write(b"sentinel:" + fn.encode("utf-8", "replace"))
                     except OSError:
                         pass
 
@@ -460,7 +513,23 @@ def _prewarm(t: Tree) -> None:
 
 # ----------------------------------------------------------------- the oracle
 def materialise(h: str, t: Tree) -> str:
+    h = re.sub(r"@ROOTFW([0-9A-F]{4})@", lambda m: t.root.replace("/", chr(int(m.group(1), 16))), h)
     return h.replace(ROOT_TOKEN, t.root)
+
+
+def _variants(nm: str) -> List[str]:
+    """The name and what a Unicode normalisation could turn it into (decoys/sentinels are planted for all of them)."""
+    import unicodedata as U
+
+    out = [nm]
+    for f in ("NFC", "NFD", "NFKC", "NFKD"):
+        v = U.normalize(f, nm)
+        if v not in out:
+            out.append(v)
+    for v in (nm.casefold(),):
+        if v not in out and any(ord(c) > 127 for c in nm):
+            out.append(v)
+    return out
 
 
 def run_case(case: Dict[str, Any]):
@@ -707,6 +776,15 @@ def _cases(tier: str) -> List[Dict[str, Any]]:
                     if fresh:
                         c["fresh_out"] = True
                     cs.append(c)
+    # compatibility characters that a normalisation would turn back into path syntax
+    for hk, _ in UNICODE_HOSTILE:
+        for slot, kinds in (("image-name", ("bmp1", "jpg")), ("image-in-form", ("bmp8gray",)), ("type0-encoding", ("bmp1",)), ("usecmap-tounicode-simple", ("bmp1",))):
+            for kind in kinds:
+                cs.append({"slots": [(slot, hk)], "kind": kind, "otype": "text"})
+    if tier == "thorough":
+        for hk, _ in UNICODE_HOSTILE:
+            for slot in ("form-name", "cmap-stream-name", "usecmap-tounicode-type0"):
+                cs.append({"slots": [(slot, hk)], "kind": "raw", "otype": "xml"})
     for slot in SLOTS:
         kinds = IMAGE_KINDS if slot in IMAGE_SLOTS else ["bmp1"]
         for hk, _ in HOSTILE:
